@@ -1494,6 +1494,8 @@ class Key(object):
         key.private_byte = None
         key.private_hex = None
         key.secret = None
+        key._wif = None
+        key._wif_prefix = None
         return key
 
     def public_point(self):
@@ -2340,6 +2342,8 @@ class HDKey(Key):
         hdkey.secret = None
         hdkey.private_hex = None
         hdkey.private_byte = None
+        hdkey._wif = None
+        hdkey._wif_prefix = None
         hdkey.key_hex = hdkey.public_hex
         # hdkey.key = self.key.public()
         return hdkey
